@@ -1,6 +1,10 @@
 import PhyVerif.Model.C15
 import PhyVerif.Spec.C15
 import PhyVerif.Lemmas.C15
+import PhyVerif.Model.C15b
+import PhyVerif.Spec.C15b
+import PhyVerif.Lemmas.C15b
+import PhyVerif.Spec.C07
 /-!
 # C15 — correlograms count exactly the spike pairs in each lag bin
 Only property theorems + non-vacuity examples; proofs in `Lemmas/C15.lean`.
@@ -60,5 +64,136 @@ example : specCcg [0, 0, 1, 3, 4] [7, 2, 7, 2, 7] [7, 5, 2] 2 1 =
 example : InDom [7, 2, 7, 2, 7] [7, 5, 2] := by unfold InDom; decide
 example : symmetrize [[[1, 2], [1, 1]], [[2, 0], [0, 1]]] =
     [[[2, 1, 2], [0, 2, 1]], [[1, 2, 0], [1, 0, 1]]] := by decide
+
+
+/-! ## Second part (`Model/C15b.lean`): rational inputs, the helpers, the firing-rate factor, `cluster_ids=None` -/
+
+/-- THE FIRING-RATE NORMALISER, with its factor: for distinct caller ids containing every spike's cluster and a
+positive bin, `firing_rate` returns, at (i, j), `#spikes(ids[i]) · #spikes(ids[j]) · bin / duration` — the outer
+product of the per-cluster spike counts times bin/duration (a duration of 0 or None counts as 1: `duration or 1.`).
+`bin ≤ 0` makes the real code fail its `assert bin_size > 0` (model: `none`). -/
+theorem firing_rate_eq (sc : List Int) (ids : List Nat) (bin : Rat) (dur : Option Rat)
+    (hdom : InDom sc ids) (hb : 0 < bin) :
+    firingRate sc (some ids) bin dur = some (specFiringRate sc ids bin dur) :=
+  Lemmas.firing_rate_eq sc ids bin dur hdom hb
+
+/-- … zero for empty clusters: the whole row and the whole column of an id without spikes vanish. -/
+theorem firing_zero_of_empty (sc : List Int) (ids : List Nat) (bin : Rat) (dur : Option Rat)
+    (i : Nat) (hi : i < ids.length) (he : Int.ofNat (ids.getD i 0) ∉ sc) (j : Nat) (hj : j < ids.length) :
+    ((specFiringRate sc ids bin dur).getD i []).getD j 0 = 0 ∧
+    ((specFiringRate sc ids bin dur).getD j []).getD i 0 = 0 :=
+  Lemmas.firing_zero_of_empty sc ids bin dur i hi he j hj
+
+/-- `cluster_ids=None`: the ids are `_unique(spike_clusters)` — strictly increasing, exactly the labels in use —
+and for non-negative labels they are in the domain of every theorem above.  (A negative label, e.g. -1 for
+"unclustered", is dropped by `_unique` and then makes `correlograms` raise ValueError in `ravel_multi_index` and
+`firing_rate` raise ValueError in `bincount`: observed on the real code, outside the quantifier.) -/
+theorem default_ids (sc : List Int) :
+    idsOr sc none = Np.unique sc ∧ C07.IsSortedSetOf (Np.unique sc) (fun v => Int.ofNat v ∈ sc) ∧
+    ((∀ c ∈ sc, 0 ≤ c) → InDom sc (Np.unique sc)) :=
+  ⟨rfl, C07.Lemmas.unique_spec sc, Lemmas.unique_inDom sc⟩
+
+/-- … so the firing rate with `cluster_ids=None` is the normaliser over the sorted distinct labels -/
+theorem firing_rate_default_ids (sc : List Int) (bin : Rat) (dur : Option Rat) (h : ∀ c ∈ sc, 0 ≤ c) (hb : 0 < bin) :
+    firingRate sc none bin dur = some (specFiringRate sc (Np.unique sc) bin dur) :=
+  Lemmas.firing_rate_eq sc (Np.unique sc) bin dur (Lemmas.unique_inDom sc h) hb
+
+/-- `_increment(arr, indices)` with every index inside the array adds to each cell the number of times its
+index occurs (repeated indices count).  An index beyond the array makes the real helper raise ValueError
+(model: `none`), except the broadcasting corner `_increment([], [0]) = []`. -/
+theorem increment_spec (arr idx : List Nat) (h : ∀ i ∈ idx, i < arr.length) :
+    ∃ r, increment arr idx = some r ∧ r.length = arr.length ∧
+      ∀ p, r.getD p 0 = arr.getD p 0 + idx.count p :=
+  Lemmas.increment_spec arr idx h
+
+/-- `_diff_shifted(arr, steps)` for `steps ≤ len(arr)` (in the loop `1 ≤ steps < len`): entry a is
+`arr[a+steps] - arr[a]`.  For `steps > len` the real helper raises a broadcast ValueError or returns an empty
+array depending on the lengths (observed; model: `none`). -/
+theorem diffShifted_spec (arr : List Int) (s : Nat) (hs : s ≤ arr.length) :
+    ∃ d, diffShifted arr s = some d ∧ d.length = arr.length - s ∧
+      ∀ a, a < arr.length - s → d.getD a 0 = arr.getD (a + s) 0 - arr.getD a 0 :=
+  Lemmas.diffShifted_spec arr s hs
+
+/-- `_create_correlograms_array(n, winsize_bins)`: zeros of shape `(n, n, winsize_bins // 2 + 1)` -/
+theorem createArray_shape (nc : Nat) (w : Int) :
+    Shape3 (createArray nc w) nc ((w / 2).toNat + 1) ∧ ∀ i j k, get3 (createArray nc w) i j k = 0 :=
+  Lemmas.createArray_shape nc w
+
+/-- WINDOW → NUMBER OF BINS.  For bin and window inside the clipping interval `[1e-5, 1e5]` s (outside, the
+real code silently replaces them by the bound: e.g. rate 1 MHz, bin 2 µs, window 10 µs gives ONE bin of 10
+samples — observed), `winsize_bins = 2·⌊window / (2·bin)⌋ + 1`: odd, at least 1, and the half window is
+`⌊window / (2·bin)⌋` bins. -/
+theorem winsize_spec (window bin : Rat) (hb1 : clipLo ≤ bin) (hb2 : bin ≤ clipHi)
+    (hw1 : clipLo ≤ window) (hw2 : window ≤ clipHi) :
+    0 ≤ ((1 / 2 : Rat) * window / bin).floor ∧
+    winsizeBins window bin = 2 * ((1 / 2 : Rat) * window / bin).floor + 1 ∧
+    halfOf window bin = ((1 / 2 : Rat) * window / bin).floor.toNat ∧
+    winsizeBins window bin = 2 * (halfOf window bin : Int) + 1 :=
+  Lemmas.winsize_spec window bin hb1 hb2 hw1 hw2
+
+/-- THE COUNT ARRAY.  The loop as the code runs it — zero array from `_create_correlograms_array`, at every shift
+`ravel_multi_index` of the selected (row cluster, column cluster, lag) triples and `_increment` into the flat
+array — never raises on in-domain inputs and returns exactly the array `correlograms` of `Model/C15.lean` reads off
+its event list (hence, by `correlograms_eq_spec`, the pair counts). -/
+theorem correlogramsArr_eq (t : List Int) (sc : List Int) (ids : List Nat) (bin : Int) (half : Nat) (w : Int)
+    (hw : (w / 2).toNat = half) (hsorted : t.Pairwise (· ≤ ·)) (hb : 0 < bin) (hlen : sc.length = t.length)
+    (hdom : InDom sc ids) :
+    correlogramsArr t sc ids bin w = correlograms t sc ids bin half :=
+  Lemmas.correlogramsArr_eq t sc ids bin half w hw hsorted hb hlen hdom
+
+/-- THE PROPERTY IN ITS OWN UNITS.  Spike times in seconds (rationals), non-decreasing; sampling rate, bin and
+window such that the sample grid and the time axis agree (`GridOK`: rate > 0, bin and window within [1e-5, 1e5] s,
+every `time·rate` and `rate·bin` a whole number ≥ 1 for the bin); any labelling, any duplicate-free caller list
+containing the labels in use.  Then the whole call — float→sample conversions, bin size, number of bins, relabelling,
+shift loop on the count array, optional symmetrisation — returns, at (i, j, k), the number of pairs a before b with
+a in `ids[i]`, b in `ids[j]` and `⌊(t_b − t_a) / bin⌋ = k`, for k up to the half window `⌊window/(2·bin)⌋`
+(symmetrised as `sym_*` describe when `symmetrize=True`).
+Outside `GridOK`: a non-integer `rate·bin` is truncated by the code (`int(rate*bin)`), e.g. rate 1 kHz, bin 2.5 ms,
+samples 0,3,5,9 give `[0,2,2]` — the counts for a 2-sample bin, not `⌊Δt/2.5 ms⌋ = [1,2,2]` (observed);
+a non-integer `time·rate` is truncated toward zero; bin/window outside [1e-5, 1e5] s are clipped. -/
+theorem correlogramsQ_eq (times : List Rat) (sc : List Int) (ids : List Nat) (rate bin window : Rat)
+    (T : List Int) (B : Int) (g : GridOK times rate bin window T B)
+    (hsorted : times.Pairwise (· ≤ ·)) (hlen : sc.length = times.length) (hdom : InDom sc ids) (sym : Bool) :
+    correlogramsQ times sc (some ids) rate bin window sym =
+      some (if sym then symmetrize (specSeconds times sc ids bin (halfOf window bin))
+            else specSeconds times sc ids bin (halfOf window bin)) :=
+  Lemmas.correlogramsQ_eq times sc ids rate bin window T B g hsorted hlen hdom sym
+
+/-- … and with `cluster_ids=None` (non-negative labels) the same over the sorted distinct labels -/
+theorem correlogramsQ_default_ids (times : List Rat) (sc : List Int) (rate bin window : Rat)
+    (T : List Int) (B : Int) (g : GridOK times rate bin window T B)
+    (hsorted : times.Pairwise (· ≤ ·)) (hlen : sc.length = times.length) (h : ∀ c ∈ sc, 0 ≤ c) (sym : Bool) :
+    correlogramsQ times sc none rate bin window sym =
+      some (if sym then symmetrize (specSeconds times sc (Np.unique sc) bin (halfOf window bin))
+            else specSeconds times sc (Np.unique sc) bin (halfOf window bin)) :=
+  Lemmas.correlogramsQ_eq times sc (Np.unique sc) rate bin window T B g hsorted hlen (Lemmas.unique_inDom sc h) sym
+
+/-! Non-vacuity -/
+example : firingRate [7, 2, 7] (some [7, 5, 2]) (1/2) (some 3) =
+    some [[2/3, 0, 1/3], [0, 0, 0], [1/3, 0, 1/6]] := by decide +kernel
+example : firingRate [7, 2, 7] none (1/2) (some 0) = some [[1/2, 1], [1, 2]] := by decide +kernel
+example : increment [0, 0, 0, 0, 0] [0, 4, 4] = some [1, 0, 0, 0, 2] ∧ increment [0, 0, 0] [0, 4] = none := by decide
+example : diffShifted [1, 4, 9] 1 = some [3, 5] ∧ diffShifted [1, 4, 9] 4 = none := by decide
+example : winsizeBins (1/80) (1/400) = 5 ∧ halfOf (1/80) (1/400) = 2 ∧ binsizeOf 1000 (1/400) = 2 := by decide +kernel
+/-- the audit's example of a non-integer `rate·bin`: the model reproduces the code's `[0, 2, 2]` -/
+example : correlogramsQ [0, 3/1000, 5/1000, 9/1000] [0, 0, 0, 0] none 1000 (1/400) (1/80) false =
+    some [[[0, 2, 2]]] := by decide +kernel
+example : correlogramsQ [0, 0, 1/4, 3/4, 1] [7, 2, 7, 2, 7] (some [7, 5, 2]) 4 (1/2) (3/2) false =
+    some (specSeconds [0, 0, 1/4, 3/4, 1] [7, 2, 7, 2, 7] [7, 5, 2] (1/2) 1) := by decide +kernel
+example : GridOK [0, 0, 1/4, 3/4, 1] 4 (1/2) (3/2) [0, 0, 1, 3, 4] 2 where
+  rate_pos := by decide +kernel
+  bin_lo := by decide +kernel
+  bin_hi := by decide +kernel
+  win_lo := by decide +kernel
+  win_hi := by decide +kernel
+  len := rfl
+  onGrid := by
+    intro a ha
+    have : a = 0 ∨ a = 1 ∨ a = 2 ∨ a = 3 ∨ a = 4 := by simp at ha; omega
+    rcases this with rfl | rfl | rfl | rfl | rfl <;> decide +kernel
+  binGrid := by decide +kernel
+  binPos := by decide
+example : specSeconds [0, 0, 1/4, 3/4, 1] [7, 2, 7, 2, 7] [7, 5, 2] (1/2) 1 =
+    [[[1, 1], [0, 0], [1, 2]], [[0, 0], [0, 0], [0, 0]], [[2, 0], [0, 0], [0, 1]]] := by decide +kernel
 
 end PhyVerif.C15
